@@ -58,6 +58,9 @@ CHECKS = {
  "C14": (True, "E1", "exploration", E1 + "; float comparison under bounds derived from argument rounding",
   "Every strategy name and alias of window and wsymm (iterated from the dictionaries) x every size 1..512 (thorough 2048) x alpha grids for blackman and cos, each size asked for several alphas in sequence and twice in the same process: length, exact equality of window.X(size) with wsymm.X(size+1)[:size], symmetry, wsymm.X(1) == [1.0], range, documented closed form typed independently (64 ulp), independence of returned lists; hop-shifted sums for hann/hamming/bartlett/rect(+aliases) at size/2 and hann/hamming/blackman at size/4 for every admissible size; alias table and periodic/symm cross references.",
   "Grid of alphas (cos alpha >= 1); tolerances 64/256 ulp derived from the rounding of the cosine arguments."),
+ "C01": (True, "E1", "exploration", E1,
+  "All 35 operator methods of the table (read from OpMethod, checked to be installed on Stream) x route (dunder call / Python syntax) x other-operand kind (Stream, list, tuple, generator, scalar, periodic Stream, constant Stream) x length pairs {0..3}^2 x element types (int, bool, float, complex, Fraction, 2x2 matrix for @) against an independent interpreter that also predicts where and with which exception type an element-level error surfaces; 131k expression trees of depth <=2 (thorough ~1.6M incl. binary combinations of depth-1 trees) over int leaves; every function of lazy_math/lazy_midi x 12 container kinds x positional/keyword route (scalar -> scalar equal to the plain math value, container kind preserved, lazy kinds give a generator that reads nothing before being consumed and one item per output), secondary parameters and the elementwise decorator itself.",
+  "Length/depth bounds; element alphabets; where Python's own dispatch transforms an operand before the Stream sees it (Fraction ** Stream) the syntax route is not demanded."),
 }
 
 NOT_YET = "check not built yet in this session; see DESIGN.md section 4 for the planned model-checking harness"
